@@ -4,10 +4,10 @@ From Coq Require Import Reals Lra List ZArith Bool.
 From Inferno Require Import Base.Num Base.NumR Gen.Interpolation Gen.Extrapolation.
 Open Scope R_scope.
 
-(* "interp at the time the sample was extrapolated from returns the sample" *)
-Definition roundtrip (interp : R -> R -> R -> R -> R) (extrap : R -> R -> R -> R -> R -> R * R)
-  (s t p n dt : R) : Prop :=
-  interp (fst (extrap s t p n dt)) (snd (extrap s t p n dt)) t dt = s.
+(* "interp at the time the sample was extrapolated from returns the sample" (parsing abbreviation only: the
+   obligations are printed in expanded form) *)
+Local Notation roundtrip interp extrap s t p n dt :=
+  (interp (fst (extrap s t p n dt)) (snd (extrap s t p n dt)) t dt = s) (only parsing).
 
 (* ---- pairs that hold for every sample time (no side condition at all) ---- *)
 Theorem roundtrip_previous : forall s t p n dt,
@@ -29,14 +29,14 @@ Proof. intros; reflexivity. Qed.
 Theorem roundtrip_neighbors_nearest : forall s t p n dt,
   roundtrip (interp_nearest RN) (extrap_neighbors RN) s t p n dt.
 Proof.
-  intros; unfold roundtrip, interp_nearest, extrap_neighbors; rn_unfold; cbn [fst snd].
+  intros; unfold interp_nearest, extrap_neighbors; rn_unfold; cbn [fst snd].
   destruct (Rltb' (/ 2) (t / dt)); reflexivity.
 Qed.
 
 Theorem roundtrip_neighbors_linear : forall s t p n dt,
   roundtrip (interp_linear RN) (extrap_neighbors RN) s t p n dt.
 Proof.
-  intros; unfold roundtrip, interp_linear, extrap_neighbors; rn_unfold; cbn [fst snd].
+  intros; unfold interp_linear, extrap_neighbors; rn_unfold; cbn [fst snd].
   unfold Rdiv; ring.
 Qed.
 
@@ -44,7 +44,7 @@ Theorem roundtrip_expdecay : forall s t p n dt tc,
   roundtrip (fun a b c d => interp_expdecay RN a b c d tc)
             (fun a b c d e => extrap_expdecay RN a b c d e tc) s t p n dt.
 Proof.
-  intros; unfold roundtrip, interp_expdecay, extrap_expdecay; rn_unfold; cbn [fst snd].
+  intros; unfold interp_expdecay, extrap_expdecay; rn_unfold; cbn [fst snd].
   rewrite Rmult_assoc, <- exp_plus.
   replace (t / tc + - t / tc) with 0 by (unfold Rdiv; ring).
   rewrite exp_0; ring.
@@ -54,7 +54,7 @@ Theorem roundtrip_expratedecay : forall s t p n dt rc,
   roundtrip (fun a b c d => interp_expratedecay RN a b c d rc)
             (fun a b c d e => extrap_expratedecay RN a b c d e rc) s t p n dt.
 Proof.
-  intros; unfold roundtrip, interp_expratedecay, extrap_expratedecay; rn_unfold; cbn [fst snd].
+  intros; unfold interp_expratedecay, extrap_expratedecay; rn_unfold; cbn [fst snd].
   rewrite Rmult_assoc, <- exp_plus.
   replace (t * rc + - t * rc) with 0 by ring.
   rewrite exp_0; ring.
@@ -64,7 +64,7 @@ Qed.
 Theorem roundtrip_nearest : forall s t p n dt, 0 < dt ->
   roundtrip (interp_nearest RN) (extrap_nearest RN) s t p n dt.
 Proof.
-  intros s t p n dt Hdt; unfold roundtrip, interp_nearest, extrap_nearest; rn_unfold.
+  intros s t p n dt Hdt; unfold interp_nearest, extrap_nearest; rn_unfold.
   replace (IZR 2) with 2 by reflexivity.
   destruct (Rltb'_spec (dt / 2) t) as [H1 | H1]; destruct (Rltb'_spec (/ 2) (t / dt)) as [H2 | H2];
     cbn [fst snd]; try reflexivity; exfalso.
@@ -81,14 +81,14 @@ Definition app_adjust (adjust : option (R -> R)) (x : R) : R :=
 Theorem roundtrip_linear_forward : forall adjust s t p n dt, t <> 0 -> dt <> 0 ->
   roundtrip (interp_linear RN) (fun a b c d e => extrap_linear_forward RN a b c d e adjust) s t p n dt.
 Proof.
-  intros adjust s t p n dt Ht Hdt; unfold roundtrip, interp_linear, extrap_linear_forward; rn_unfold.
+  intros adjust s t p n dt Ht Hdt; unfold interp_linear, extrap_linear_forward; rn_unfold.
   cbn [fst snd]. set (p' := match adjust with Some f => f p | None => p end). field; auto.
 Qed.
 
 Theorem roundtrip_linear_backward : forall adjust s t p n dt, t <> dt -> dt <> 0 ->
   roundtrip (interp_linear RN) (fun a b c d e => extrap_linear_backward RN a b c d e adjust) s t p n dt.
 Proof.
-  intros adjust s t p n dt Ht Hdt; unfold roundtrip, interp_linear, extrap_linear_backward; rn_unfold.
+  intros adjust s t p n dt Ht Hdt; unfold interp_linear, extrap_linear_backward; rn_unfold.
   cbn [fst snd]. set (n' := match adjust with Some f => f n | None => n end).
   field; split; auto. intro H; apply Ht; lra.
 Qed.
